@@ -1,11 +1,13 @@
 (** Extraction of the enc engine: bit packing and the RLE / bit-packed hybrid (models and specs). *)
 Require Extraction.
 Require Import ExtrOcamlBasic.
-From Carquet Require Import Enc.BitpackSpec Enc.BitpackModel Enc.RleSpec Enc.RleModel.
+From Carquet Require Import Enc.BitpackSpec Enc.BitpackModel Enc.RleSpec Enc.RleModel Enc.BitRwSpec Enc.BitRwModel.
 Extraction Language OCaml.
 Extraction "extracted/enc_ext.ml"
   BitpackModel.pack8 BitpackModel.unpack8 BitpackModel.bitpack_32 BitpackModel.bitunpack_32
   BitpackSpec.pack_spec BitpackSpec.unpack_spec
   RleModel.encode_all RleModel.decode_all RleModel.dec_init RleModel.get_batch RleModel.get
   RleModel.skip RleModel.has_next RleModel.d_ok
-  RleSpec.spec_decode_all.
+  RleSpec.spec_decode_all
+  BitRwModel.write_all BitRwModel.read_all BitRwModel.br_init BitRwModel.w_out BitRwModel.remaining_bits
+  BitRwModel.has_more BitRwSpec.stream_bytes.
